@@ -90,6 +90,26 @@ def _own_programs():
     P["o:exp2"] = (lambda x: jnp.exp2(x) + 1.0, [sds((2, 3))])
     P["o:power_col_base"] = (lambda c, x: jnp.power(c, x), [sds((3, 1)), sds((3, 4))])
     P["o:sym_pow_scalar_base"] = (lambda x: jnp.tanh(3.0 ** x), [("B", 4)])
+    # plugins that STAMP the shapes of intermediates from permutation arithmetic: pairwise distinct extents, cyclic perms
+    from jax import lax
+    P["o:vmap1_tensordot"] = (jax.vmap(lambda a, b: jnp.tensordot(a, b, axes=([0], [0])), in_axes=(1, None)), [("S", 8, 4), ("S", 5)])
+    P["o:vmap1_tensordot_static"] = (jax.vmap(lambda a, b: jnp.tensordot(a, b, axes=([0], [0])), in_axes=(1, None)), [sds((6, 8, 4)), sds((6, 5))])
+    P["o:dot_general_batch_nonleading"] = (lambda a, b: lax.dot_general(a, b, (((1,), (1,)), ((0, 2), (0, 2)))), [("B", 3, 5, 4), ("B", 3, 5, 7)])
+    P["o:dot_general_batch_last"] = (lambda a, b: lax.dot_general(a, b, (((0,), (1,)), ((2,), (0,)))), [sds((3, 4, 5)), sds((5, 3, 7))])
+    P["o:einsum_bthd"] = (lambda q, k: jnp.einsum("bthd,bshd->bhts", q, k), [("B", 6, 3, 4), ("B", 7, 3, 4)])
+    P["o:einsum_cyclic"] = (lambda a, b: jnp.einsum("ijk,kli->jl", a, b), [sds((3, 4, 5)), sds((5, 6, 3))])
+    P["o:attention_relayout"] = (lambda q, k, v: jnp.reshape(jnp.transpose(
+        jax.nn.softmax(jnp.transpose(q, (0, 2, 1, 3)) @ jnp.transpose(k, (0, 2, 3, 1)) * 0.5, axis=-1) @ jnp.transpose(v, (0, 2, 1, 3)),
+        (0, 2, 1, 3)), (q.shape[0], 6, 12)), [("B", 6, 3, 4), ("B", 7, 3, 4), ("B", 7, 3, 4)])
+    P["o:moveaxis_chain"] = (lambda x: jnp.moveaxis(jnp.swapaxes(jnp.tanh(x), 0, 2), 1, 3) * 2.0, [("B", 3, 4, 5)])
+    P["o:transpose_cyclic_sym"] = (lambda x: jnp.sin(jnp.transpose(x, (1, 2, 0))) + 1.0, [("S", 8, 4)])
+    P["o:vmap2_matmul"] = (jax.vmap(jnp.matmul, in_axes=(2, None)), [sds((3, 4, 6)), sds((4, 5))])
+    P["o:vmap1_einsum"] = (jax.vmap(lambda a, b: jnp.einsum("td,de->te", a, b), in_axes=(1, None)), [sds((6, 7, 4)), sds((4, 5))])
+    P["o:conv_nchw_oihw_to_nhwc"] = (lambda x, w: lax.conv_general_dilated(x, w, (1, 1), "VALID", dimension_numbers=("NCHW", "OIHW", "NHWC")),
+                                     [("B", 3, 6, 8), sds((4, 3, 2, 2))])
+    P["o:conv_nhwc_hwio"] = (lambda x, w: lax.conv_general_dilated(x, w, (1, 2), "SAME", dimension_numbers=("NHWC", "HWIO", "NHWC")),
+                             [("B", 6, 8, 3), sds((2, 2, 3, 4))])
+    P["o:reduce_window_nchw"] = (lambda x: lax.reduce_window(x, -jnp.inf, lax.max, (1, 1, 2, 2), (1, 1, 2, 2), "VALID"), [("B", 3, 6, 8)])
     P["o:int_bcast"] = (lambda a, b: a[:, None] * b[None, :] + 1, [sds((3,), np.int32), sds((4,), np.int32)])
     return P
 
@@ -108,7 +128,10 @@ def own_names():
     return ["o:add_const11", "o:mul_npconst11", "o:add_npconst111_sin", "o:sym_add_npconst11", "o:scalar_plus_const11",
             "o:max_const11", "o:clip_consts", "o:transpose_add_transpose", "o:transpose_mul_const_relu",
             "o:sym_transpose_chain", "o:sym_broadcast_rows", "o:sym_bias", "o:sym_concat_self", "o:sym_mean_keepdims",
-            "o:reshape_add_const", "o:cast_chain", "o:where_cmp", "o:sym_two_aranges", "o:min_sym_const111", "o:x64_narrowing_cast", "o:nchw_sym_spatial_broadcast", "o:nchw_sym_spatial_broadcast_only", "o:nchw_out_sym_spatial", "o:pow_scalar_base", "o:exp2", "o:power_col_base", "o:sym_pow_scalar_base", "o:int_bcast"]
+            "o:reshape_add_const", "o:cast_chain", "o:where_cmp", "o:sym_two_aranges", "o:min_sym_const111", "o:x64_narrowing_cast", "o:nchw_sym_spatial_broadcast", "o:nchw_sym_spatial_broadcast_only", "o:nchw_out_sym_spatial", "o:pow_scalar_base", "o:exp2", "o:power_col_base", "o:sym_pow_scalar_base",
+            "o:vmap1_tensordot", "o:vmap1_tensordot_static", "o:dot_general_batch_nonleading", "o:dot_general_batch_last", "o:einsum_bthd",
+            "o:einsum_cyclic", "o:attention_relayout", "o:moveaxis_chain", "o:transpose_cyclic_sym", "o:vmap2_matmul", "o:vmap1_einsum",
+            "o:conv_nchw_oihw_to_nhwc", "o:conv_nhwc_hwio", "o:reduce_window_nchw", "o:int_bcast"]
 
 
 # ====================================================================== annotation snapshots (IR level)
@@ -1390,7 +1413,8 @@ def coq_annot_consistent(ctx, terms):
         out = []
         for i, (_k, t) in enumerate(chunk):
             out.append(f"Definition m{off + i} : omodel := {t}.\n"
-                       f"Eval vm_compute in (annot_consistent m{off + i}, annot_inconsistent_at m{off + i}, rule_applies m{off + i}, derived_count m{off + i}).\n")
+                       f"Eval vm_compute in (annot_consistent m{off + i}, annot_inconsistent_at m{off + i}, rule_applies m{off + i}, derived_count m{off + i}).\n"
+                       f"Eval vm_compute in (layout_contradictions m{off + i}, layout_rule_applies m{off + i}).\n")
         return "".join(out)
     res = common.coq_eval_batches(ctx, "c08_models", header, terms, render, per_file=PER_FILE_MODELS)
     out = {}
@@ -1399,14 +1423,16 @@ def coq_annot_consistent(ctx, terms):
     for ok, txt in res:
         chunk = terms[pos:pos + PER_FILE_MODELS]
         pos += PER_FILE_MODELS
-        blocks = re.findall(r"=\s*\((true|false),\s*(\[.*?\]|nil),\s*(\d+)(?:%nat)?,\s*(\d+)(?:%nat)?\)\s*:", txt.replace("\n", " "))
-        if not ok or len(blocks) != len(chunk):
+        flat = txt.replace("\n", " ")
+        blocks = re.findall(r"=\s*\((true|false),\s*(\[.*?\]|nil),\s*(\d+)(?:%nat)?,\s*(\d+)(?:%nat)?\)\s*:", flat)
+        lblocks = re.findall(r"=\s*\((\[[^\]]*\]|nil),\s*(\d+)(?:%nat)?\)\s*:\s*list", flat)
+        if not ok or len(blocks) != len(chunk) or len(lblocks) != len(chunk):
             ok_all = False
             ctx.coq_models_log = txt[-1500:]
             continue
-        for (k, _t), (c, off, ra, dc) in zip(chunk, blocks):
-            offenders = re.findall(r'\("([^"]*)"(?:%string)?,\s*"([^"]*)"(?:%string)?\)', off)
-            out[k] = (c == "true", offenders, int(ra), int(dc))
+        pair = r'\("([^"]*)"(?:%string)?,\s*"([^"]*)"(?:%string)?\)'
+        for (k, _t), (c, off, ra, dc), (lc, la) in zip(chunk, blocks, lblocks):
+            out[k] = (c == "true", re.findall(pair, off), int(ra), int(dc), re.findall(pair, lc), int(la))
     return ok_all, out
 
 
@@ -1495,14 +1521,20 @@ def run(ctx):
                getattr(ctx, "coq_models_log", ""))
     n_rules = sum(v[2] for v in verdicts.values())
     n_derived = sum(v[3] for v in verdicts.values())
-    for key, (c, offenders, _ra, _dc) in sorted(verdicts.items()):
+    for key, v_ in sorted(verdicts.items()):
+        for op, name in v_[4][:3]:
+            ctx.violate(f"annot:{op}:static-layout:{key}",
+                        f"layout_contradictions: the declared dims of {name} (output of {op}) contradict what the operator gives from the declared "
+                        f"dims of its input (Transpose: out[i] = in[perm[i]]; same-shape operators: out = in) - different rank, different integers, "
+                        f"or an integer/another symbol against a graph-input symbol", {"kind": "export", "case": key, "value": name})
+    for key, (c, offenders, _ra, _dc, _lc, _la) in sorted(verdicts.items()):
         if not c:
             for op, name in offenders[:3] or [("?", "?")]:
                 ctx.violate(f"annot:{op}:static-rule:{key}",
                             f"annot_consistent = false: the declared static shape of {name} (output of {op}) is not what the operator's shape "
                             f"rule gives for the declared static operand shapes", {"kind": "export", "case": key, "value": name})
     ctx.coverage["coq_checker"] = {"models": len(verdicts), "consistent": sum(1 for v in verdicts.values() if v[0]),
-                                   "nodes_where_a_rule_applied": n_rules, "annotations_entailed_from_graph_inputs(derive)": n_derived,
+                                   "nodes_where_a_rule_applied": n_rules, "nodes_where_the_layout_rule_applied(any dims)": sum(v[5] for v in verdicts.values()), "annotations_entailed_from_graph_inputs(derive)": n_derived,
                                    "wall_s": round(time.time() - t0, 1)}
     ctx.coverage["evaluations"] = evals + ctx.coverage.get("runtime_values_checked", 0)
     ctx.coverage["distinct_nontrivial"] = distinct + ctx.coverage.get("distinct_producer_ops", 0)
